@@ -143,6 +143,19 @@ where
         // for the invalidated value.
         let mut cache_opt = self.cache.write().await;
 
+        // Another task may have fetched a new value while we were waiting for the write lock.
+        // Otherwise release the invalidated value now, because the owner waits for all copies
+        // of it to be dropped before it processes further requests.
+        match &*cache_opt {
+            Some(cache) if cache.is_valid() => {
+                return Ok(tokio::sync::RwLockReadGuard::map(
+                    tokio::sync::RwLockWriteGuard::downgrade(cache_opt),
+                    |co| co.as_ref().unwrap(),
+                ));
+            }
+            _ => *cache_opt = None,
+        }
+
         // Request and receive current value.
         let (value_tx, value_rx) = oneshot::channel();
         let _ = self.req_tx.send(ReadRequest { value_tx }).await;
